@@ -112,21 +112,22 @@ Definition propagate_spec_t := prop_spec push_t mark_callers_t propagate_t mark_
 Section State.
 Variable p : program.
 Variable rk : node -> nat.
+Variable s0 : state.
 Hypothesis Hrk : forall n e d, alookup p n = Some e -> In d (expr_reads e) -> (rk d < rk n)%nat.
 Hypothesis Hproj : forall n e d, alookup p n = Some e -> nkind n = KProjection -> In d (expr_reads e) ->
   is_fw_or_proj (nkind d) = true.
 
 (** more dirt on existing edges, a larger visited set *)
 Lemma MInv_dirtier : forall Ex Ex' X inp s s',
-  s_nodes s' = s_nodes s -> s_bwd s' = s_bwd s -> s_ts s' = s_ts s ->
+  s_nodes s' = s_nodes s -> s_bwd s' = s_bwd s -> s_ts s' = s_ts s -> s_log s' = s_log s ->
   (forall a b, sdirty s a b -> sdirty s' a b) ->
   (forall a b, sdirty s' a b -> In b (old_fwd s a)) ->
   (forall x, In x (s_visited s') ->
      Ex' x \/ sverified s x \/
      (nkind x <> KInput /\ forall c, In c (callers_of s x) -> sdirty s' c x /\ (thru c -> In c (s_visited s')))) ->
-  MInvE p rk Ex X inp s -> MInvE p rk Ex' X inp s'.
+  MInvE p rk s0 Ex X inp s -> MInvE p rk s0 Ex' X inp s'.
 Proof.
-  intros Ex Ex' X inp s s' Hn Hb Ht Hd1 Hd2 Hv HI.
+  intros Ex Ex' X inp s s' Hn Hb Ht Hl Hd1 Hd2 Hv HI.
   assert (Hg : forall m, get_info s' m = get_info s m) by (intro m; unfold get_info; rewrite Hn; reflexivity).
   assert (Hc : forall m, callers_of s' m = callers_of s m) by (intro m; unfold callers_of; rewrite Hb; reflexivity).
   destruct HI. split.
@@ -153,15 +154,18 @@ Proof.
     + right. right. split; [exact K0|]. intros c Hcx. rewrite Hc in Hcx. apply K. exact Hcx.
   - intros x Hx. destruct (mi_X x Hx) as [K1 K2]. split; [exact K1|].
     destruct K2 as [K2|K2]; [left; apply (msn_verified _ _ Hg Ht); exact K2|right; apply (msn_StaleX _ _ Hg Ht); exact K2].
+  - intros m Hm. rewrite Hl in Hm. apply mi_J. exact Hm.
+  - intro m. rewrite Hg. destruct (mi_U m) as [K|K]; [left; apply (msn_verified _ _ Hg Ht); exact K|right; exact K].
+  - intros m i. rewrite Hg, Hl. apply mi_O.
 Qed.
 
 (** a path to a node that is neither firewall nor projection runs through such nodes *)
-Lemma tpath_nonfw : forall Ex X inp s, MInvE p rk Ex X inp s -> forall d x, tpath s d x -> nonfw x -> thru d -> nonfw d.
+Lemma tpath_nonfw : forall Ex X inp s, MInvE p rk s0 Ex X inp s -> forall d x, tpath s d x -> nonfw x -> thru d -> nonfw d.
 Proof.
   intros Ex X inp s HI d x H. induction H as [n|n d x Hd Hn Hp IH]; intros Hx Ht; [exact Hx|].
   specialize (IH Hx Hn). unfold nonfw in *. destruct (nkind n) eqn:K; try reflexivity.
   - exfalso. apply Ht. exact K.
-  - rewrite (proj_fwd_kind p rk Hproj _ _ _ _ _ _ HI K Hd) in IH. discriminate.
+  - rewrite (proj_fwd_kind p rk Hproj _ _ _ _ _ _ _ HI K Hd) in IH. discriminate.
 Qed.
 
 (** no verified node strictly above [n] *)
@@ -177,28 +181,28 @@ Definition UpDirtyP (s : state) (n : node) : Prop :=
   (forall b x a, tpath s b x -> In n (old_fwd s x) -> nonfw x -> thru b -> In b (old_fwd s a) -> sdirty s a b).
 
 Lemma MInv_propagate_t : forall X inp fuel s n s',
-  MInv p rk X inp s -> propagate_t fuel s [n] = Ok s' -> ~ sverified s n -> NVabove s n ->
+  MInv p rk s0 X inp s -> propagate_t fuel s [n] = Ok s' -> ~ sverified s n -> NVabove s n ->
   is_fw_or_proj (nkind n) = true ->
-  MInv p rk X inp s' /\
+  MInv p rk s0 X inp s' /\
   s_nodes s' = s_nodes s /\ s_bwd s' = s_bwd s /\ s_ts s' = s_ts s /\ s_log s' = s_log s /\ UpDirty s' n.
 Proof.
   intros X inp fuel s n s' HI H Hnv HNV Kn.
   set (E := fun x => sverified s x).
   assert (HP : PVp push_t E s [n]).
-  { intros x Hx. destruct (mi_PV _ _ _ _ _ _ HI x Hx) as [[]|[K|[_ K]]]; [left; exact K|right].
+  { intros x Hx. destruct (mi_PV _ _ _ _ _ _ _ HI x Hx) as [[]|[K|[_ K]]]; [left; exact K|right].
     intros c Hc. destruct (K c Hc) as [K1 K2]. split; [exact K1|]. intro Hn. left. apply K2. apply push_t_thru. exact Hn. }
   destruct (propagate_spec_t E _ _ _ _ H HP) as (N1 & N2 & N3 & N4 & N5 & N6 & N7 & N8 & N9 & N10).
   assert (Hg : forall m, get_info s' m = get_info s m) by (intro m; unfold get_info; rewrite N1; reflexivity).
   assert (Hc : forall m, callers_of s' m = callers_of s m) by (intro m; unfold callers_of; rewrite N2; reflexivity).
   assert (Hni : forall x, In x (s_visited s') -> sverified s x \/ nkind x <> KInput).
   { intros x Hx. destruct (N10 x Hx) as [K0|[[<-|[]]|[_ [y K0]]]].
-    - destruct (mi_PV _ _ _ _ _ _ HI x K0) as [[]|[K1|[K1 _]]]; auto.
+    - destruct (mi_PV _ _ _ _ _ _ _ HI x K0) as [[]|[K1|[K1 _]]]; auto.
     - right. intro K. rewrite K in Kn. discriminate.
-    - right. intro Ki. apply (mi_bwd _ _ _ _ _ _ HI) in K0. rewrite (minput_no_fwd _ _ _ _ _ _ _ HI Ki) in K0. destruct K0. }
-  assert (HI' : MInv p rk X inp s').
+    - right. intro Ki. apply (mi_bwd _ _ _ _ _ _ _ HI) in K0. rewrite (minput_no_fwd _ _ _ _ _ _ _ _ HI Ki) in K0. destruct K0. }
+  assert (HI' : MInv p rk s0 X inp s').
   { eapply MInv_dirtier; eauto.
     - intros a b K. apply N6 in K. destruct K as [K|K]; [eapply mi_dirty_edge; eauto|].
-      apply (mi_bwd _ _ _ _ _ _ HI). exact K.
+      apply (mi_bwd _ _ _ _ _ _ _ HI). exact K.
     - intros x Hx. right. destruct (N9 x Hx) as [K|K]; [left; exact K|].
       destruct (Hni x Hx) as [Hv|Hv]; [left; exact Hv|right]. split; [exact Hv|].
       intros c Hcx. rewrite <- Hc in Hcx. destruct (K c Hcx) as [K1 K2]. split; [exact K1|].
@@ -209,7 +213,7 @@ Proof.
   assert (Hcl : forall x, In x (s_visited s') -> ~ sverified s x ->
             forall c, In x (old_fwd s c) -> sdirty s' c x /\ (thru c -> In c (s_visited s'))).
   { intros x Hx Hxv c Hcx. destruct (N9 x Hx) as [K|K]; [contradiction|].
-    assert (Hcc : In c (callers_of s' x)) by (rewrite Hc; apply (mi_bwd _ _ _ _ _ _ HI); exact Hcx).
+    assert (Hcc : In c (callers_of s' x)) by (rewrite Hc; apply (mi_bwd _ _ _ _ _ _ _ HI); exact Hcx).
     destruct (K c Hcc) as [K1 K2]. split; [exact K1|]. intro Ht. apply push_t_thru in Ht. destruct (K2 Ht) as [K3|[]]. exact K3. }
   assert (Hup : forall b x, tpath s b x -> In n (old_fwd s x) -> thru b -> In b (s_visited s') /\ ~ sverified s b).
   { intros b x Hp. induction Hp as [b|b d x Hd Hnd Hp IH]; intros Hx Hb.
@@ -223,32 +227,32 @@ Proof.
 Qed.
 
 Lemma MInv_propagate_p : forall X inp fuel s n s',
-  MInv p rk X inp s -> propagate fuel s [n] = Ok s' -> ~ sverified s n -> NVabove s n ->
+  MInv p rk s0 X inp s -> propagate fuel s [n] = Ok s' -> ~ sverified s n -> NVabove s n ->
   is_fw_or_proj (nkind n) = true ->
-  MInvE p rk (eq n) X inp s' /\
+  MInvE p rk s0 (eq n) X inp s' /\
   s_nodes s' = s_nodes s /\ s_bwd s' = s_bwd s /\ s_ts s' = s_ts s /\ s_log s' = s_log s /\ UpDirtyP s' n.
 Proof.
   intros X inp fuel s n s' HI H Hnv HNV Kn.
   set (E := fun x => sverified s x).
   assert (HP : PVp push_p E s [n]).
-  { intros x Hx. destruct (mi_PV _ _ _ _ _ _ HI x Hx) as [[]|[K|[_ K]]]; [left; exact K|right].
+  { intros x Hx. destruct (mi_PV _ _ _ _ _ _ _ HI x Hx) as [[]|[K|[_ K]]]; [left; exact K|right].
     intros c Hc. destruct (K c Hc) as [K1 K2]. split; [exact K1|]. intro Hn. left. apply K2.
     apply push_p_nonfw in Hn. unfold thru. intro Kc. unfold nonfw in Hn. rewrite Kc in Hn. discriminate. }
   destruct (propagate_spec_p E _ _ _ _ H HP) as (N1 & N2 & N3 & N4 & N5 & N6 & N7 & N8 & N9 & N10).
   assert (Hg : forall m, get_info s' m = get_info s m) by (intro m; unfold get_info; rewrite N1; reflexivity).
   assert (Hc : forall m, callers_of s' m = callers_of s m) by (intro m; unfold callers_of; rewrite N2; reflexivity).
-  assert (HI' : MInvE p rk (eq n) X inp s').
+  assert (HI' : MInvE p rk s0 (eq n) X inp s').
   { eapply MInv_dirtier; eauto.
     - intros a b K. apply N6 in K. destruct K as [K|K]; [eapply mi_dirty_edge; eauto|].
-      apply (mi_bwd _ _ _ _ _ _ HI). exact K.
+      apply (mi_bwd _ _ _ _ _ _ _ HI). exact K.
     - intros x Hx. destruct (N10 x Hx) as [K0|[[<-|[]]|[Kp [y K0]]]].
       + (* visited before: what the invariant said carries over *)
-        right. destruct (mi_PV _ _ _ _ _ _ HI x K0) as [[]|[K1|[K1 K2]]]; [left; exact K1|right].
+        right. destruct (mi_PV _ _ _ _ _ _ _ HI x K0) as [[]|[K1|[K1 K2]]]; [left; exact K1|right].
         split; [exact K1|]. intros c Hcx. destruct (K2 c Hcx) as [K3 K4]. split; [apply N5; exact K3|].
         intro Ht. apply N7. apply K4. exact Ht.
       + left. reflexivity.
       + right. destruct (N9 x Hx) as [K|K]; [left; exact K|right]. apply push_p_nonfw in Kp. split.
-        * intro Ki. apply (mi_bwd _ _ _ _ _ _ HI) in K0. rewrite (minput_no_fwd _ _ _ _ _ _ _ HI Ki) in K0. destruct K0.
+        * intro Ki. apply (mi_bwd _ _ _ _ _ _ _ HI) in K0. rewrite (minput_no_fwd _ _ _ _ _ _ _ _ HI Ki) in K0. destruct K0.
         * intros c Hcx. rewrite <- Hc in Hcx. destruct (K c Hcx) as [K1 K2]. split; [exact K1|].
           intro Ht. rewrite Hc in Hcx.
           assert (Hcp : push_p c = true).
@@ -262,7 +266,7 @@ Proof.
   assert (Hcl : forall x, In x (s_visited s') -> ~ sverified s x ->
             forall c, In x (old_fwd s c) -> sdirty s' c x /\ (nonfw c -> In c (s_visited s'))).
   { intros x Hx Hxv c Hcx. destruct (N9 x Hx) as [K|K]; [contradiction|].
-    assert (Hcc : In c (callers_of s' x)) by (rewrite Hc; apply (mi_bwd _ _ _ _ _ _ HI); exact Hcx).
+    assert (Hcc : In c (callers_of s' x)) by (rewrite Hc; apply (mi_bwd _ _ _ _ _ _ _ HI); exact Hcx).
     destruct (K c Hcc) as [K1 K2]. split; [exact K1|]. intro Ht. apply push_p_nonfw in Ht. destruct (K2 Ht) as [K3|[]]. exact K3. }
   assert (Hup : forall b x, tpath s b x -> In n (old_fwd s x) -> nonfw x -> thru b -> In b (s_visited s') /\ ~ sverified s b).
   { intros b x Hp. induction Hp as [b|b d x Hd Hnd Hp IH]; intros Hx Hnx Hb.
